@@ -2,6 +2,7 @@ mod core;
 mod drive;
 mod extract;
 mod replay;
+mod rx;
 
 fn arg(args: &[String], name: &str) -> Option<String> {
     args.iter().position(|a| a == name).and_then(|p| args.get(p + 1)).cloned()
@@ -36,6 +37,16 @@ fn main() {
             let len: usize = arg(&args, "--len").and_then(|s| s.parse().ok()).unwrap_or(40);
             let ser: usize = arg(&args, "--ser-every").and_then(|s| s.parse().ok()).unwrap_or(0);
             println!("{}", drive::drive(&out, seed, n, len, ser));
+        }
+        Some("regex") => {
+            let data = arg(&args, "--data").expect("--data");
+            let tests = arg(&args, "--tests").expect("--tests");
+            println!("{}", rx::run(&data, &tests));
+        }
+        Some("regex1") => {
+            let regex = arg(&args, "--regex").expect("--regex");
+            let bytes: Vec<u8> = serde_json::from_str(&arg(&args, "--bytes").expect("--bytes")).unwrap();
+            println!("{}", rx::one(&regex, &bytes));
         }
         Some("histories") => {
             let input = arg(&args, "--in").expect("--in");
